@@ -1,26 +1,28 @@
 """Per-property configuration of the checks: theorem file, generated-obligation files,
 history profiles, projection (tables / fields compared), monitors, op families."""
 
-PROFILE_SALT = {'did': 11, 'node': 23, 'select': 37, 'sao': 41, 'staking': 53}
+PROFILE_SALT = {'did': 11, 'node': 23, 'select': 37, 'sao': 41, 'saolong': 43, 'staking': 53}
 
 TRUSTED_COMMON = [
     'extraction: ExtrOcamlBasic only (Extract Inductive for bool, option, unit, list, prod, sumbool, sumor; no Extract Constant); '
     'Z/positive/N/nat/string/ascii stay the extracted inductives; OCaml 4.13.1; runner/runner.ml (parser/printer of the wire format)',
     'correspondence harness: harness/*.go drives the real app.App through InitChain/BeginBlock/DeliverTx/EndBlock/Commit and dumps '
     'the stores through the keepers\' own getters; its generators are sampled (coverage below), not exhaustive',
-    'modelled, not verified: cosmos-sdk baseapp/bank/staking/params, Tendermint, IAVL, protobuf, gas metering and events (absent from the model)',
+    'translator/main.go (go/types) regenerating Generated/SourceFacts.v',
+    'modelled, not verified: cosmos-sdk baseapp/bank/staking/params, Tendermint, IAVL, protobuf, gas metering and events (absent from the model); '
+    'cryptography and the sao-did URL parser are oracles computed by the harness with the chain\'s own libraries',
 ]
-
-ALLOWED_AXIOMS = ()  # none expected; std-library axioms would be named here
 
 
 def axioms_allowed(txt):
     return False
 
 
-# prefix match on "table" or "table#field"
 def _match(pats, t):
-    return any(t == p or t.startswith(p + '#') or t.startswith(p + '+') or (p.endswith('.') and t.startswith(p)) for p in pats)
+    for p in pats:
+        if p == '*' or t == p or t.startswith(p + '#') or t.startswith(p + '+') or (p.endswith('.') and t.startswith(p)):
+            return True
+    return False
 
 
 def in_projection(cid, t):
@@ -35,19 +37,140 @@ def family_of(cid, fam):
     return fam in PROPS[cid].get('families', [])
 
 
+# profile presets: (name, quick count, thorough count, ops per history)
+def P(name, quick, thorough, ops):
+    return {'name': name, 'quick': quick, 'thorough': thorough, 'ops': ops}
+
+
+DID = P('did', 16, 400, 120)
+NODE = P('node', 16, 300, 150)
+SELECT = P('select', 8, 64, 120)
+SAO = P('sao', 32, 600, 150)
+SAOLONG = P('saolong', 8, 96, 60)
+STAKING = P('staking', 16, 300, 150)
+
+ALL_FAM = ['did', 'node', 'sao', 'block', 'bank', 'staking', 'fault', 'select']
+
 PROPS = {
+    'C01': {
+        'theorems': 'Properties/C01', 'obligation_files': ['Obligations/ObAmbient'],
+        'profiles': [SAO, STAKING, DID, NODE],
+        'projection': ['*'], 'monitors': ['frame.rejected_unchanged'], 'families': ['did', 'node', 'sao', 'block', 'bank', 'staking', 'fault'],
+        'extra': ['twin'],
+    },
+    'C02': {
+        'theorems': 'Properties/C02', 'obligation_files': ['Obligations/ObShape'],
+        'profiles': [SAO, SAOLONG, NODE, SELECT, STAKING],
+        'projection': ['outcome-class'], 'monitors': ['live.'], 'families': ALL_FAM,
+        'halt_is_violation': True,
+    },
+    'C03': {
+        'theorems': 'Properties/C03', 'obligation_files': ['Obligations/ObAmbient'],
+        'profiles': [STAKING, NODE],
+        'projection': ['proc.sharesBeforeModified', 'node.Node#5', 'node.Node#6'], 'monitors': ['proc.'], 'families': ['staking', 'node', 'block'],
+    },
+    'C04': {
+        'theorems': 'Properties/C04', 'obligation_files': ['Obligations/ObShape'],
+        'profiles': [SAO, SAOLONG],
+        'projection': ['bank.Balance', 'market.Worker', 'order.Order#8', 'order.Order#6', 'order.Order#5'],
+        'monitors': ['solv.market', 'solv.order', 'frame.supply'], 'families': ['sao', 'block', 'node'],
+    },
+    'C05': {
+        'theorems': 'Properties/C05', 'obligation_files': [],
+        'profiles': [SAO, SAOLONG],
+        'projection': ['bank.Balance', 'order.Order+keys', 'order.Shard+keys', 'model.Metadata', 'model.Model', 'model.ExpiredData'],
+        'monitors': ['sched.expdata_live', 'sched.meta_scheduled', 'ref.model_alias'], 'families': ['sao', 'block'],
+    },
+    'C06': {
+        'theorems': 'Properties/C06', 'obligation_files': ['Obligations/ObShape'],
+        'profiles': [SAO, SAOLONG, NODE],
+        'projection': ['bank.Balance', 'bank.Supply', 'node.PledgeDebt', 'did.DidBalances'],
+        'monitors': ['solv.'], 'families': ['sao', 'block', 'node', 'bank'],
+    },
+    'C07': {
+        'theorems': 'Properties/C07', 'obligation_files': [],
+        'profiles': [SAO, SAOLONG, NODE],
+        'projection': ['bank.Balance', 'node.Pledge#0', 'node.Pledge#1', 'node.Pledge#4', 'node.Pledge#5', 'node.PledgeDebt', 'order.Shard#4', 'order.Shard#9'],
+        'monitors': ['agg.used_bounds', 'agg.shpledged_is_sum', 'agg.used_is_sum', 'frame.node_msgs'], 'families': ['sao', 'block', 'node'],
+    },
+    'C08': {
+        'theorems': 'Properties/C08', 'obligation_files': ['Obligations/ObShape'],
+        'profiles': [NODE, SAO, SAOLONG],
+        'projection': ['bank.Supply', 'node.Pool', 'node.Pledge#2', 'node.Pledge#3', 'node.Pledge#4'],
+        'monitors': ['agg.pool_is_sum', 'frame.supply', 'solv.node'], 'families': ['block', 'node', 'sao'],
+    },
+    'C09': {
+        'theorems': 'Properties/C09', 'obligation_files': [],
+        'profiles': [SAO, SAOLONG],
+        'projection': ['model.'], 'monitors': ['authz.store', 'authz.renew', 'authz.terminate', 'authz.permission', 'frame.models'],
+        'families': ['sao', 'block'],
+    },
+    'C10': {
+        'theorems': 'Properties/C10', 'obligation_files': [],
+        'profiles': [SAO, NODE],
+        'projection': ['order.Order+keys', 'order.Order#5', 'order.Shard#1', 'order.Shard#6', 'node.Node', 'node.Pledge', 'bank.Balance'],
+        'monitors': ['authz.complete', 'authz.cancel', 'authz.payer', 'frame.node_msgs'], 'families': ['sao', 'node'],
+    },
+    'C11': {
+        'theorems': 'Properties/C11', 'obligation_files': ['Obligations/ObShape'],
+        'profiles': [SAOLONG, SAO],
+        'projection': ['order.Shard+keys', 'order.Shard#7', 'order.Shard#8', 'order.Shard#9', 'order.Order+keys', 'model.Metadata+keys', 'model.Metadata#11',
+                       'sao.ExpiredShard', 'model.ExpiredData', 'node.Pledge#5', 'node.Pledge#1', 'market.Worker'],
+        'monitors': ['ref.completed_scheduled', 'sched.'], 'families': ['block', 'sao'],
+    },
+    'C12': {
+        'theorems': 'Properties/C12', 'obligation_files': ['Obligations/ObShape'],
+        'profiles': [SAO, SAOLONG],
+        'projection': ['order.Order#5', 'order.Order#6', 'order.Order#7', 'order.Order#8', 'order.Order+keys', 'sao.TimeoutOrder', 'order.Shard#1'],
+        'monitors': ['sched.timeout_scheduled'], 'families': ['block', 'sao'],
+    },
+    'C13': {
+        'theorems': 'Properties/C13', 'obligation_files': [],
+        'profiles': [SAO, SAOLONG],
+        'projection': ['order.Order#7', 'order.Order+keys', 'order.Shard#0', 'order.Shard+keys', 'model.Metadata+keys', 'model.Metadata#1', 'model.Metadata#2',
+                       'model.Model', 'sao.ExpiredShard'],
+        'monitors': ['ref.'], 'families': ['sao', 'block'],
+    },
+    'C14': {
+        'theorems': 'Properties/C14', 'obligation_files': [],
+        'profiles': [SAO, SAOLONG, NODE],
+        'projection': ['node.Pledge#0', 'node.Pledge#1', 'node.Pledge#4', 'node.Pledge#5', 'market.Worker#0', 'market.Worker#2', 'node.Pool#0', 'node.Pool#6',
+                       'order.Shard#2', 'order.Shard#4'],
+        'monitors': ['agg.'], 'families': ['sao', 'block', 'node'],
+    },
+    'C15': {
+        'theorems': 'Properties/C15', 'obligation_files': ['Obligations/ObShape'],
+        'profiles': [SELECT, SAO],
+        'projection': ['select', 'node.NodeRound', 'order.Shard#6', 'order.Shard+keys'],
+        'monitors': ['sel.'], 'families': ['select', 'sao', 'block'],
+    },
+    'C16': {
+        'theorems': 'Properties/C16', 'obligation_files': [],
+        'profiles': [SAO, SAOLONG],
+        'projection': ['order.OrderCount', 'order.ShardCount', 'order.Order+keys', 'order.Shard+keys', 'model.Metadata#3', 'model.Metadata#6',
+                       'model.Metadata#9', 'model.Metadata#15', 'model.Metadata#16'],
+        'monitors': ['ids.'], 'families': ['sao', 'block'],
+    },
     'C17': {
-        'theorems': 'Properties/C17',
-        'obligation_files': [],
-        'profiles': [{'name': 'did', 'quick': 16, 'thorough': 400, 'ops': 120}],
-        'projection': ['did.'],
-        'monitors': ['did.'],
-        'families': ['did'],
-        'strength': 'full: Inv_did (18 clauses over the ten tables) is proved preserved by every operation of the did machine for '
-                    'every history; per-operation theorems for binding proofs, creator binding, rotation list exactness, key-DID '
-                    'payment immutability. "Fresh proof that the account accepts that DID" is refuted: see KNOWN_FINDINGS (D17).',
-        'trusted': ['oracles in did operations: secp256k1/EIP-191 signature verification, sha256 doc id, the sao-did URL parser '
-                    '(op_sane is checked on every generated operation)'],
-        'assumptions': ['crypto and URL parser are oracles computed by the harness with the chain\'s own libraries'],
+        'theorems': 'Properties/C17', 'obligation_files': [],
+        'profiles': [DID],
+        'projection': ['did.'], 'monitors': ['did.'], 'families': ['did'],
+    },
+    'C18': {
+        'theorems': 'Properties/C18', 'obligation_files': ['Obligations/ObGenesis'],
+        'profiles': [],
+        'projection': ['genesis'], 'monitors': ['genesis.'], 'families': ['genesis'],
+        'extra': ['genesis'],
+    },
+    'C19': {
+        'theorems': 'Properties/C19', 'obligation_files': [],
+        'profiles': [SAO],
+        'projection': ['node.FaultById', 'node.FaultIndex', 'node.FishingReward', 'bank.Balance', 'node.Pledge', 'order.', 'model.Metadata'],
+        'monitors': ['frame.faults', 'authz.faults'], 'families': ['fault'],
+    },
+    'C20': {
+        'theorems': 'Properties/C20', 'obligation_files': ['Obligations/ObShape'],
+        'profiles': [STAKING, NODE],
+        'projection': ['node.Node#5', 'node.Node#6'], 'monitors': ['super.'], 'families': ['staking', 'node', 'block'],
     },
 }
